@@ -763,11 +763,11 @@ Section HistoryInv.
     injection H as H1 H2. subst s3 out3.
     destruct (fold_clear_good _ s s1 Hg Hs1) as [Hg1 Hgr1].
     change (fold_left gd_step
-              (combine params (map (fun h => match grad_of s h with None => true | Some _ => false end) params))
+              (combine params (frozen_flags s [] params))
               (Some (s1, sgd_zip O lr (concat pv) (concat pg), [])) = Some (s2, buf3, out)) in Hfold.
     assert (Hnil : forall h, In h (@nil handle) -> hvalid (st_nodes s1) h) by (intros h []).
     assert (Hps1 : forall p, In p (combine params
-                     (map (fun h => match grad_of s h with None => true | Some _ => false end) params)) ->
+                     (frozen_flags s [] params)) ->
                    hvalid (st_nodes s1) (fst p)).
     { intros p Hp. destruct p as [h b]. apply in_combine_l in Hp.
       eapply hvalid_grow; [exact Hgr1 | apply Hps; exact Hp]. }
